@@ -35,6 +35,7 @@ impl SharedHistory {
 
     /// Provides access to the underlying history.
     pub fn read(&self) -> impl ops::Deref<Target = PayloadHistory> + '_ {
+        #[cfg(feature = "verif-hooks")] crate::verif::point("history:read");
         self.0.read().expect("Payload history lock poisoned")
     }
 
@@ -43,6 +44,7 @@ impl SharedHistory {
     /// This is private because access is only through dedicated update
     /// methods.
     fn write(&self) -> impl ops::DerefMut<Target = PayloadHistory> + '_ {
+        #[cfg(feature = "verif-hooks")] crate::verif::point("history:write");
         self.0.write().expect("Payload history lock poisoned")
     }
 
@@ -62,6 +64,8 @@ impl SharedHistory {
         let snapshot = report.into_snapshot(
             exceptions, &mut metrics,
         );
+        #[cfg(feature = "verif-hooks")]
+        let snapshot = verif_hooks::override_snapshot(snapshot);
 
         let (current, serial) = {
             let read = self.read();
@@ -452,3 +456,58 @@ impl PayloadHistory {
     }
 }
 
+
+
+//------------ Verification hooks --------------------------------------------
+
+/// Hooks for the external verification harness (feature `verif-hooks`).
+#[cfg(feature = "verif-hooks")]
+mod verif_hooks {
+    use std::sync::Mutex;
+    use super::PayloadSnapshot;
+
+    static NEXT_SNAPSHOT: Mutex<Option<PayloadSnapshot>> = Mutex::new(None);
+
+    /// Sets the snapshot the next call to `SharedHistory::update` installs.
+    pub fn set_next_snapshot(snapshot: Option<PayloadSnapshot>) {
+        *NEXT_SNAPSHOT.lock().unwrap() = snapshot;
+    }
+
+    /// Returns the scripted snapshot if there is one, `snapshot` otherwise.
+    pub fn override_snapshot(snapshot: PayloadSnapshot) -> PayloadSnapshot {
+        NEXT_SNAPSHOT.lock().unwrap().take().unwrap_or(snapshot)
+    }
+}
+
+#[cfg(feature = "verif-hooks")]
+impl SharedHistory {
+    /// Makes the next `update` install `snapshot` instead of the snapshot
+    /// derived from the validation report.
+    ///
+    /// Everything else in `update` runs unchanged. This allows data sets
+    /// with ASPAs and a chosen refresh time.
+    pub fn verif_set_next_snapshot(snapshot: Option<PayloadSnapshot>) {
+        verif_hooks::set_next_snapshot(snapshot)
+    }
+
+    /// Restarts the serial numbering of an active history at `serial`.
+    ///
+    /// Drops all deltas and pushes an empty delta with the given serial,
+    /// so the next change gets `serial + 1`. This makes histories around
+    /// the serial number wrap-around reachable without 2^32 updates.
+    /// Returns `false` and does nothing if the history is not yet active.
+    pub fn verif_seed_serial(&self, serial: Serial) -> bool {
+        let mut history = self.write();
+        if history.current.is_none() {
+            return false
+        }
+        history.deltas.clear();
+        history.push_delta(PayloadDelta::empty(serial));
+        true
+    }
+
+    /// Returns the serial numbers of the retained deltas, newest first.
+    pub fn verif_delta_serials(&self) -> Vec<Serial> {
+        self.read().deltas.iter().map(|delta| delta.serial()).collect()
+    }
+}
